@@ -448,4 +448,4 @@ def mk_violation(prop, spec_name, ch, case, which, mode, kind, observed, expecte
 def summarize(M):
     if M is None:
         return None
-    return onp.round(M, 6).tolist() if M.size <= 36 else "matrix %s, max|.|=%g" % (M.shape, float(onp.nanmax(onp.abs(M))) if M.size else 0)
+    return onp.round(M, 6).tolist() if M.size <= 36 else "matrix %s, max|.|=%g" % (M.shape, float(onp.nanmax(onp.abs(M))) if (M.size and not onp.all(onp.isnan(M))) else 0)
